@@ -69,6 +69,8 @@ func checkC07(c *Ctx) {
 			c.c08Backend(b)
 		}
 	}, func(o *coreObl) (string, bool) { return "R07.7", o.Rule == "R08.5" && strings.HasSuffix(o.Construct, "Walk") })
+	// "an expired entry yields ErrExpired": the expiry error matches the sentinel and the expired-item interfaces (C03 R03.3)
+	c.borrow("C03", func() { c.c03ExpiryErrorTypes() }, func(o *coreObl) (string, bool) { return "R07.2", o.Rule == "R03.3" })
 	// the expiry an entry reports (ExpireAt / ExpiredAt) is its E: tsTime is the exact inverse of ts (C10 R10.5)
 	c.borrow("C10", func() { c.c10TsInverse() }, func(o *coreObl) (string, bool) { return "R07.2", o.Rule == "R10.5" })
 	// "expired but still retrievable as stale": an expired entry stays until it has been expired for DeleteExpiredAfter (C11 R11.1)
